@@ -22,7 +22,7 @@ from harness.common import VERIF, enc, run_driver
 
 from insights.core import dr, filters, plugins
 from insights.core.filters import add_filter, get_filters, apply_filters
-from insights.core.spec_factory import (SpecSet, RegistryPoint, simple_file, simple_command, first_of,
+from insights.core.spec_factory import (SpecSet, RegistryPoint, simple_file, simple_command, first_of, glob_file,
                                         TextFileProvider)
 from insights.core.plugins import datasource, parser, combiner
 from insights.core.context import HostContext, HostArchiveContext
@@ -127,6 +127,42 @@ def gen_spec(rng):
     return sp
 
 
+def world_line_of(comps, enabled):
+    """the `world` protocol line for a list of real components, read off through dr / plugins"""
+    index = dict((id(c), i) for i, c in enumerate(comps))
+    nodes = []
+    n = len(comps)
+    for c in comps:
+        is_ds = bool(plugins.is_datasource(c))
+        dg = dr.get_delegate(c)
+        deps = []
+        for d in dr.get_dependencies(c):
+            if id(d) in index:
+                deps.append(index[id(d)])
+            elif not is_ds:
+                raise RuntimeError("non-datasource component depends on something outside the world")
+        dpts = [index[id(d)] for d in dr.get_dependents(c)]
+        flags = [is_ds, bool(getattr(dg, "filterable", False)), bool(getattr(dg, "raw", False)),
+                 hasattr(c, "filterable") and c.filterable is False, bool(dr.is_registry_point(c)),
+                 bool(getattr(c, "filterable", False))]
+        nodes.append(("".join("1" if x else "0" for x in flags), deps, dpts))
+    # rank = longest chain of dependents above a node (a cycle would make this recurse forever: guard)
+    memo = {}
+
+    def rank(i, depth=0):
+        if depth > n:
+            raise RuntimeError("cyclic component graph")
+        if i not in memo:
+            above = set(nodes[i][2]) | set(j for j in range(n) if i in nodes[j][1])
+            memo[i] = 1 + max([rank(j, depth + 1) for j in above] or [-1])
+        return memo[i]
+    ranks = [rank(i) for i in range(n)]
+    fs = ["world", "1" if enabled else "0", ",".join(str(r) for r in ranks)]
+    for fl, deps, dpts in nodes:
+        fs.append("%s/%s/%s" % (fl, ",".join(map(str, deps)) or "-", ",".join(map(str, dpts)) or "-"))
+    return "\t".join(fs)
+
+
 class World(object):
     """real components built from a spec + the generator's own record of the graph (for the oracle)"""
 
@@ -229,37 +265,7 @@ class World(object):
 
     # ---- what the MODEL gets: read off the real objects through dr / plugins
     def world_line(self):
-        nodes = []
-        n = len(self.comps)
-        for c in self.comps:
-            is_ds = bool(plugins.is_datasource(c))
-            dg = dr.get_delegate(c)
-            deps = []
-            for d in dr.get_dependencies(c):
-                if id(d) in self.index:
-                    deps.append(self.index[id(d)])
-                elif not is_ds:
-                    raise RuntimeError("non-datasource component depends on something outside the world")
-            dpts = [self.index[id(d)] for d in dr.get_dependents(c)]
-            flags = [is_ds, bool(getattr(dg, "filterable", False)), bool(getattr(dg, "raw", False)),
-                     hasattr(c, "filterable") and c.filterable is False, bool(dr.is_registry_point(c)),
-                     bool(getattr(c, "filterable", False))]
-            nodes.append(("".join("1" if x else "0" for x in flags), deps, dpts))
-        # rank = longest chain of dependents above a node (a cycle would make this recurse forever: guard)
-        memo = {}
-
-        def rank(i, depth=0):
-            if depth > n:
-                raise RuntimeError("cyclic component graph")
-            if i not in memo:
-                above = set(nodes[i][2]) | set(j for j in range(n) if i in nodes[j][1])
-                memo[i] = 1 + max([rank(j, depth + 1) for j in above] or [-1])
-            return memo[i]
-        ranks = [rank(i) for i in range(n)]
-        fs = ["world", "1" if self.sp["enabled"] else "0", ",".join(str(r) for r in ranks)]
-        for fl, deps, dpts in nodes:
-            fs.append("%s/%s/%s" % (fl, ",".join(map(str, deps)) or "-", ",".join(map(str, dpts)) or "-"))
-        return "\t".join(fs)
+        return world_line_of(self.comps, self.sp["enabled"])
 
     # ---- what the ORACLE uses: only the generator's own record
     def first_ds_below(self, c, seen=None):
@@ -753,6 +759,180 @@ def run_malformed(rig, data, allow):
     return out, stage, final
 
 
+# =========================================================================== (c) load histories
+
+LOAD_TOKENS = ["a", "b", "x", "-x", "ab", " ", ".", "e", "foo"]
+
+
+def gen_load_history(rng, quick):
+    """filters with SMALL budgets on one spec, then several files of the same datasource loaded through the
+    archive path (single-file and glob / multi-output implementation), interleaved with look-ups, further
+    registrations and the other consumers of the allow-list.  Each filter string is registered on ONE target."""
+    toks = rng.sample(LOAD_TOKENS, rng.randint(3, 5))
+    keys = []
+    for _ in range(8):
+        k = "".join(rng.choice(toks) for _ in range(rng.choice([1, 1, 2])))
+        if k not in keys:
+            keys.append(k)
+        if len(keys) == 3:
+            break
+    home = dict((k, rng.choice(["p", "p", "a", "g"])) for k in keys)
+
+    def lines():
+        n = rng.choice([1, 2, 3, 4, 5, 6, 8])
+        return ["".join(rng.choice(toks) for _ in range(rng.choice([0, 1, 1, 2, 3]))) for _ in range(n)]
+    ops = []
+    for k in keys[:rng.randint(1, len(keys))]:
+        ops.append(["add", home[k], k, rng.choice([1, 1, 2, 3])])
+    for _ in range(rng.randint(5, 10 if quick else 16)):
+        r = rng.random()
+        if r < 0.42:
+            ops.append(["load", lines()])
+        elif r < 0.57:
+            ops.append(["glob", [lines() for _ in range(rng.randint(2, 4))]])
+        elif r < 0.69:
+            ops.append(["get", rng.choice(["p", "a", "g"])])
+        elif r < 0.79:
+            k = rng.choice(keys)
+            ops.append(["add", home[k], k, rng.choice([1, 2, 3])])
+        elif r < 0.87:
+            ops.append(["clean", lines()])
+        elif r < 0.93:
+            ops.append(["apply", lines()])
+        else:
+            ops.append(["fcd", lines()])
+    return ops
+
+
+class LoadHistory(object):
+    """one load history against the real code: impl answers, model lines, oracle failures"""
+
+    def __init__(self, rig, ops):
+        self.ops = ops
+        self.lines, self.impl, self.fail, self.tags = [], [], [], []
+        tag = fresh("l")
+        self.sub = "lh" + tag
+        os.makedirs(os.path.join(rig.dir, self.sub, "g"))
+        one = os.path.join(self.sub, "one.txt")
+        pt = RegistryPoint(filterable=True, multi_output=True, no_obfuscate=list(NO_OBF), no_redact=True)
+        S = type("S" + tag, (SpecSet,), {"p": pt})
+        A = type("A" + tag, (S,), {"p": simple_file(one, context=HostArchiveContext)})
+        G = type("G" + tag, (S,), {"p": glob_file(os.path.join(self.sub, "g", "*.txt"), context=HostArchiveContext)})
+        comps = {"p": S.p, "a": A.p, "g": G.p}
+        ids = {"p": 0, "a": 1, "g": 2}
+        self.lines.append(world_line_of([S.p, A.p, G.p], True))
+        self.impl.append("ok ranked=1")
+        log = {"p": {}, "a": {}, "g": {}}       # oracle: the registrations, max-merged per target
+
+        def registered(t):
+            d = dict(log["p"])
+            if t != "p":
+                d.update(log[t])        # a filter string has one home, so no conflict
+            return sorted(d.items())
+
+        def write(path, ls):
+            with open(os.path.join(rig.dir, path), "wb") as f:
+                f.write("".join(l + "\n" for l in ls).encode("utf-8"))
+
+        def check(step, name, t, ls, out, **kw):
+            allow = registered(t)
+            if not allow:
+                bad = None if out == ls else "%s: no filters registered, the content must be the whole file" % name
+            else:
+                bad = content_oracle(name, ls, allow, out, **kw)
+            if bad:
+                self.fail.append((bad + " (filters registered for this datasource: %r)" % (allow,), step))
+
+        for step, op in enumerate(ops):
+            kind = op[0]
+            self.tags.append("load-history:" + kind)
+            if kind == "add":
+                _, t, k, m = op
+                add_filter(comps[t], k, m)
+                log[t][k] = max(log[t].get(k, m), m)
+                self.lines.append("add\t%d\t%d\tL\t%s" % (ids[t], m, enc(k)))
+                self.impl.append("ok")
+            elif kind == "get":
+                pass        # the sweep below looks every component up
+            elif kind == "load":
+                write(one, op[1])
+                out = list(A.p(rig.ab).content)
+                self.lines.append("load\t1\t" + m_lines(op[1]) if op[1] else "load\t1")
+                self.impl.append(show_lines(out))
+                check(step, "archive-load", "a", op[1], out)
+            elif kind == "glob":
+                gdir = os.path.join(rig.dir, self.sub, "g")
+                for f in os.listdir(gdir):
+                    os.remove(os.path.join(gdir, f))
+                for i, ls in enumerate(op[1]):
+                    write(os.path.join(self.sub, "g", "f%d.txt" % i), ls)
+                provs = G.p(rig.ab)         # sorted by path = f0, f1, ...
+                for i, (ls, pr) in enumerate(zip(op[1], provs)):
+                    out = list(pr.content)
+                    self.lines.append("load\t2\t" + m_lines(ls) if ls else "load\t2")
+                    self.impl.append(show_lines(out))
+                    check(step, "archive-load(glob file %d)" % i, "g", ls, out)
+                if len(provs) != len(op[1]):
+                    self.fail.append(("glob_file returned %d providers for %d files" % (len(provs), len(op[1])), step))
+            elif kind == "clean":
+                # the shared dict itself is handed to the cleaner (it documents a copy)
+                out = rig.cleaner.clean_content(list(op[1]), no_obfuscate=list(NO_OBF), no_redact=True,
+                                                allowlist=get_filters(A.p, True))
+                self.lines.append("clean\t1\t" + m_lines(op[1]) if op[1] else "clean\t1")
+                self.impl.append(show_lines(out))
+                if registered("a"):
+                    check(step, "cleaner-allowlist", "a", op[1], out, empties_pass=True)
+            elif kind == "apply":
+                out = list(apply_filters(A.p, list(op[1])))
+                self.lines.append("apply\t1\t" + m_lines(op[1]) if op[1] else "apply\t1")
+                self.impl.append(show_lines(out))
+                check(step, "apply_filters", "a", op[1], out, exact=True)
+            elif kind == "fcd":
+                out = AllowFilter.filter_content(list(op[1]), get_filters(A.p, True))
+                self.lines.append("fcd\t1\t" + m_lines(op[1]) if op[1] else "fcd\t1")
+                self.impl.append(show_lines(out))
+                if registered("a"):
+                    check(step, "filter_content(shared dict)", "a", op[1], out)
+            # after EVERY step: the filters in force for all three components, against the model's
+            # registry (which loads cannot touch) and against the registration log
+            for t in ("p", "a", "g"):
+                got = get_filters(comps[t], True)
+                self.lines.append("get\t%d" % ids[t])
+                self.impl.append(";".join("%s=%d" % (enc(k), v) for k, v in got.items()) or "-")
+                if sorted(got.items()) != registered(t) or get_filters(comps[t]) != set(k for k, _ in registered(t)):
+                    self.fail.append(("after %s: get_filters(%s) = %r, the registration log gives %r (filters and budgets "
+                                      "must not be worn out by loads)" % (kind, t, sorted(got.items()), registered(t)), step))
+        shutil.rmtree(os.path.join(rig.dir, self.sub), ignore_errors=True)
+
+
+def run_load_histories(chk, rig, cases, stream="load-history"):
+    runs, lines = [], []
+    for ops in cases:
+        h = LoadHistory(rig, ops)
+        runs.append(h)
+        lines.extend(h.lines)
+    out = run_driver("C07", lines)
+    pos = mism = 0
+    first = None
+    for ops, h in zip(cases, runs):
+        m = out[pos:pos + len(h.lines)]
+        pos += len(h.lines)
+        for i, (a, b, ln) in enumerate(zip(h.impl, m, h.lines)):
+            if ln.startswith("get"):
+                b = b.split("\t", 1)[1]         # drop hit / miss; key ORDER is compared (it decides which filter is charged)
+            if a != b:
+                mism += 1
+                if first is None:
+                    first = {"case": {"kind": "loadhist", "ops": ops}, "diff": {"line": ln, "impl": a, "model": b, "at": i}}
+                break
+        for desc, step in h.fail:
+            chk.failure("load history step %d (%s): %s" % (step, ops[step][0], desc), {"kind": "loadhist", "ops": ops})
+    chk.stream(stream, len(cases), mism)
+    if mism:
+        chk.tie_broken("correspondence:" + stream, "%d of %d load histories differ" % (mism, len(cases)), first)
+    return runs
+
+
 # =========================================================================== corpus / witnesses
 
 def load_corpus():
@@ -773,11 +953,16 @@ def run(chk):
     n_content = 2500 if quick else 40000
     n_direct = 4000 if quick else 80000
     n_bad = 300 if quick else 4000
+    n_load = 400 if quick else 8000
     chk.rule = ("(a) histories of 4-12 add_filter/get_filters/provider-construction operations over a fresh generated "
                 "component graph (1-3 registry points with random filterable/raw flags, 1-2 implementation classes using "
                 "simple_file/simple_command/first_of/shared datasource objects, derived datasources, parsers, combiners, "
                 "a plain function; 8% with filtering disabled); non-trivial = some look-up returned a non-empty set or was "
                 "answered from the cache after a registration; "
+                "(c) load histories: 1-3 filters with max_match 1-3 on one spec, then 5-10 steps of loading generated files of the "
+                "same datasource through TextFileProvider under HostArchiveContext (simple_file and glob_file / multi-output), "
+                "look-ups, further registrations, clean_content / apply_filters / filter_content on the shared dict; "
+                "get_filters of all three components compared with the model after every step; non-trivial = at least two loads; "
                 "(b) files of 0-13 lines over tokens with regex metacharacters, leading dashes, blanks, tabs, non-ASCII, "
                 "empty and duplicate lines, 1-3 filters with budgets 1-3 or 10000; non-trivial = some line kept and some dropped")
     chk.assumptions = [
@@ -791,20 +976,24 @@ def run(chk):
     open(os.path.join(scratch, "f"), "w").write("x\n")
     rig = ContentRig()
     try:
-        _run(chk, rng, quick, n_hist, n_content, n_direct, n_bad, scratch, rig)
+        _run(chk, rng, quick, n_hist, n_content, n_direct, n_bad, n_load, scratch, rig)
     finally:
         rig.close()
         shutil.rmtree(scratch, ignore_errors=True)
 
 
-def _run(chk, rng, quick, n_hist, n_content, n_direct, n_bad, scratch, rig):
+def _run(chk, rng, quick, n_hist, n_content, n_direct, n_bad, n_load, scratch, rig):
     corpus = load_corpus()
 
     # ---- corpus: regression cases and the known-finding witness
     hist_cases = []
+    load_cases = []
     for c in corpus:
         if c["kind"] == "history":
             hist_cases.append((c["spec"], c["ops"]))
+            chk.witnesses.append(c["file"])
+        elif c["kind"] == "loadhist":
+            load_cases.append(c["ops"])
             chk.witnesses.append(c["file"])
         elif c["kind"] == "content":
             impl, model, fails, order = run_content_case(rig, c["lines"], [tuple(x) for x in c["allow"]], with_command=True)
@@ -846,6 +1035,18 @@ def _run(chk, rng, quick, n_hist, n_content, n_direct, n_bad, scratch, rig):
         if not sp["enabled"]:
             chk.count("world:disabled")
     chk.sample({"history": hist_cases[len(corpus)][1][:4], "graph": hist_cases[len(corpus)][0]})
+
+    # ---- (c) load histories: the same datasource loaded again and again in one process
+    for _ in range(n_load):
+        load_cases.append(gen_load_history(rng, quick))
+    lruns = run_load_histories(chk, rig, load_cases)
+    for ops, h in zip(load_cases, lruns):
+        nloads = sum(1 for o in ops if o[0] == "load") + sum(len(o[1]) for o in ops if o[0] == "glob")
+        chk.case(("loadhist", json.dumps(ops)), nloads >= 2)
+        for t in h.tags:
+            chk.count(t)
+        chk.count("load-history:loads=%d" % min(nloads, 9))
+    chk.sample({"load-history": load_cases[-1][:5]})
 
     # ---- (b) the code paths on the same file
     cases, impl_all, model_all = [], [], []
@@ -938,6 +1139,21 @@ def replay(data):
                 bad = True
         finally:
             shutil.rmtree(scratch, ignore_errors=True)
+    elif c["kind"] == "loadhist":
+        rig = ContentRig()
+        try:
+            h = LoadHistory(rig, c["ops"])
+            model = run_driver("C07", h.lines)
+            for ln, a, b in zip(h.lines, h.impl, model):
+                if not ln.startswith("world"):
+                    if ln.startswith("get"):
+                        b = b.split("\t", 1)[1]
+                    print("  %-34s impl=%-30s model=%s%s" % (ln[:34].replace("\t", " "), a, b, "" if a == b else "   <-- differ"))
+            for desc, step in h.fail:
+                print("ORACLE step %d %s: %s" % (step, c["ops"][step][0], desc))
+                bad = True
+        finally:
+            rig.close()
     else:
         rig = ContentRig()
         try:
